@@ -3,3 +3,5 @@ import KernProofs.C16
 import KernProofs.C09
 import KernProofs.C10
 import KernProofs.C18
+import KernProofs.C14
+import KernProofs.C20
